@@ -1,5 +1,5 @@
 //! C18 — Merkle trees and their openings are mutually consistent.
-//! (The parallel-build clause is decided by the C06 differential build, vdet family 'merkle'.)
+//! (The parallel-build clause is decided by the serial/concurrent differential stage of this check (vdet family 'merkle'; evidence key thread_differential).)
 
 use vcore::*;
 use winter_crypto::{BatchMerkleProof, Hasher, MerkleTree, VectorCommitment};
